@@ -251,6 +251,17 @@ func (m *Machine) guard(c *Term, what string) {
 	}
 	pos := len(m.decisions)
 	if pos >= len(m.prefix) {
+		if m.h.Params["strictFP"] == 1 {
+			// harness option: a reachable division by zero / sqrt of a negative
+			// number is a violation (the result would be NaN or Inf), not an
+			// assumed-away precondition
+			m.solver.Push()
+			m.solver.Assert(m.tt.Not(c))
+			if m.solver.Check() == Sat {
+				m.recordViolation("no division by zero or square root of a negative number", "assert", what+" is reachable", true)
+			}
+			m.solver.Pop()
+		}
 		if m.solver.CheckWith(c) == Unsat {
 			panic(pathEnd{status: StFPExc, msg: what})
 		}
